@@ -189,10 +189,12 @@ WEAK_TEST
 int16_t COTmrDelete(CO_TMR *tmr, int16_t actId)
 {
     CO_TMR_TIME   *tx;
+    CO_TMR_TIME   *te     = 0;
     CO_TMR_ACTION *act;
     CO_TMR_ACTION *prev;
     CO_TMR_ACTION *del    = 0;
     int16_t        result = -1;
+    uint8_t        elapsed = 0;
 
     if ( (actId < 0) ||
          (actId >= (int16_t)(tmr->Max)) ) {
@@ -231,6 +233,7 @@ int16_t COTmrDelete(CO_TMR *tmr, int16_t actId)
     /* not found: search in elapsed timer list */
     if (del == 0) {
         tx = tmr->Elapsed;
+        elapsed = 1;
         while ((tx != 0) && (del == 0)) {
             act = tx->Action;
             if (act->Id == (uint16_t)actId) {
@@ -252,6 +255,7 @@ int16_t COTmrDelete(CO_TMR *tmr, int16_t actId)
                 }
             }
             if (del == 0) {
+                te = tx;
                 tx = tx->Next;
             }
         }
@@ -268,7 +272,19 @@ int16_t COTmrDelete(CO_TMR *tmr, int16_t actId)
         if (tx != 0) {
             if (tx->Action == (CO_TMR_ACTION*)0) {
                 tx->ActionEnd = 0;
-                COTmrRemove(tmr, tx);
+                if (elapsed != 0) {
+                    /* emptied event waits in elapsed list: unlink and free it */
+                    if (te == 0) {
+                        tmr->Elapsed = tx->Next;
+                    } else {
+                        te->Next = tx->Next;
+                    }
+                    tx->Delta = 0;
+                    tx->Next  = tmr->Free;
+                    tmr->Free = tx;
+                } else {
+                    COTmrRemove(tmr, tx);
+                }
             }
             result = 0;
         }
